@@ -50,7 +50,7 @@ def run(c, chk):
         return None
 
     # ---- state invariant: opt is non-null on entry to every state but "expecting a name" -------
-    nonnull = opt_nonnull_states(c, model)
+    nonnull = model.opt_nonnull_states()
     chk.analysed['states_with_nonnull_opt'] = sorted(nonnull)
 
     # ---- R6.1 parser -----------------------------------------------------------------------------
@@ -288,44 +288,6 @@ def newline_guard(ap):
             if sym.mentions(other, lambda v: v == ('g', '@cfg_yytext')):
                 return True
     return False
-
-
-def opt_nonnull_states(c, model):
-    states = set(model.states)
-    nonnull = set(states) - {0}
-    # forced entries
-    idx_state, idx_opt = 2, 3
-    for g in c.all_funcs():
-        for call in g.calls('cfg_parse_internal'):
-            fo = call.args[idx_opt]
-            if fo.kind == 'null':
-                fs = call.args[idx_state]
-                if fs.kind == 'int' and fs.ival in nonnull and fs.ival != -1:
-                    nonnull.discard(fs.ival)
-    changed = True
-    table = [(s, tok, trs) for s, tok, trs in model.table()]
-    while changed:
-        changed = False
-        for s, tok, trs in table:
-            for tr in trs:
-                if tr.kind != 'next' or tr.next_state is None or tr.next_state not in nonnull:
-                    continue
-                if s in nonnull and tr.assumes('opt', False):
-                    continue
-                o = tr.next.get('opt')
-                ok = False
-                if o is None or o == ('p', 'opt'):
-                    ok = (s in nonnull) or tr.assumes('opt')
-                elif o[0] == 'call':
-                    # non-null iff the path assumed so
-                    for cn, t, _ in tr.assume:
-                        na = fp.is_null_assumption(cn, t)
-                        if na and na[0] == o and not na[1]:
-                            ok = True
-                if not ok:
-                    nonnull.discard(tr.next_state)
-                    changed = True
-    return nonnull
 
 
 def include_position(c, chk, lex):
